@@ -218,24 +218,20 @@ let is_arith = function Add | Sub | Mul -> true | _ -> false
 (* ---- expressions --------------------------------------------------------------------------- *)
 let rec gen_expr st env ty d ~op : expr * k =
   tick st env;
-  match env.recf with
-  | Some r when r.sites > 0 && ty = (match r.rf.vty with TFun (_, t) -> t | t -> t)
-                && Rng.pct st.rng 35 && d > 0 && resolve env r.rn.vn == Some r.rn |> ignore; false -> assert false
-  | _ ->
-    let rec_site =
-      match env.recf with
-      | Some r when r.sites > 0 && d > 0
-                    && (match r.rf.vty with TFun (_, t) -> t = ty | _ -> false)
-                    && Rng.pct st.rng 35 -> rec_call st env r d
-      | _ -> None in
-    match rec_site with
-    | Some e -> (e, KC)
-    | None ->
-      if d <= 0 || over st env then gen_leaf st env ty ~op
-      else match ty with
-        | TInt -> gen_int st env d ~op
-        | TBool -> gen_bool st env d ~op
-        | _ -> gen_other st env ty d ~op
+  let rec_site =
+    match env.recf with
+    | Some r when r.sites > 0 && d > 0
+                  && (match r.rf.vty with TFun (_, t) -> t = ty | _ -> false)
+                  && Rng.pct st.rng 35 -> rec_call st env r d
+    | _ -> None in
+  match rec_site with
+  | Some e -> (e, KC)
+  | None ->
+    if d <= 0 || over st env then gen_leaf st env ty ~op
+    else match ty with
+      | TInt -> gen_int st env d ~op
+      | TBool -> gen_bool st env d ~op
+      | _ -> gen_other st env ty d ~op
 
 (* the recursive call of a recursion template: f(n - 1, args) while n still is the measure *)
 and rec_call st env r d : expr option =
@@ -616,8 +612,7 @@ and gen_loop st env d : item list =
   let incr = EAssign (ev i, EBin ((if down then Sub else Add), ev i, ei step)) in
   let env_b = { (bind env vi) with mult = env.mult * (max 1 n); loopd = env.loopd + 1;
                                    block = []; forbid = IS.singleton i } in
-  let saved_recf = env_b.recf in
-  let env_b = { env_b with recf = (match saved_recf with Some _ -> None | None -> None) } in
+  let env_b = { env_b with recf = None } in
   let body, _ = gen_block_in st env_b TInt (min d 2) ~items:(1 + Rng.int st.rng 2) in
   flag st "loop";
   let kind = Rng.int st.rng 3 in
@@ -758,10 +753,8 @@ and gen_named_func ?(toplevel = false) ?kind st env d : fdef * vinfo =
           20, (fun () -> ECond (ENot guard, call, res));
           20, (fun () -> ECond (guard, EBlock [IExpr res], EBlock [IExpr call]));
           20, (fun () ->
-              let t = new_name st env_b in
-              let a0 = List.hd accs in
+              let t = new_name ~avoid:(name :: List.map (fun v -> v.vn) pvs) st { env_b with block = [] } in
               let call' = ECall (ev name, EBin (Sub, ev m, ei 1) :: List.mapi (fun i a -> if i = 0 then ev t else a) args) in
-              ignore a0;
               ECond (guard, res, EBlock [ILet (n_of_int t, small ()); IExpr call'])) ] () in
       flag st "tail_function";
       let b = match bound with Some b -> b | None -> 1 in
